@@ -266,19 +266,26 @@ func (m *mappers) ToCharGroup(r comb.Result) (comb.Result, bool) {
 
 	items := r2.Val.(comb.List)
 
-	charMap := make([]bool, len(parser.RuneClasses["ASCII"].Runes()))
+	// The characters listed in the group are not limited to the ASCII universe (e.g. [\x80], [\p{Greek}]).
+	marked := map[rune]bool{}
 	for _, r := range items {
 		if chars, ok := r.Bag[bagKeyChars].([]rune); ok {
 			for _, c := range chars {
-				charMap[c] = true
+				marked[c] = true
 			}
 		}
 	}
 
 	nfa := auto.NewNFA(0, []auto.State{1})
-	for i, marked := range charMap {
-		if (!neg && marked) || (neg && !marked) {
-			nfa.Add(0, auto.Symbol(rune(i)), []auto.State{1})
+	if neg {
+		for _, c := range parser.RuneClasses["ASCII"].Runes() {
+			if !marked[c] {
+				nfa.Add(0, auto.Symbol(c), []auto.State{1})
+			}
+		}
+	} else {
+		for c := range marked {
+			nfa.Add(0, auto.Symbol(c), []auto.State{1})
 		}
 	}
 
